@@ -288,6 +288,14 @@ class Repo:
                     t = self._method(fi.module, head, f.attr)
                     if t:
                         return t
+                # module-level instance:  _net_connections = NetConnections()
+                if "." not in bname and head in mod.assigns:
+                    for v in mod.assigns[head]:
+                        if isinstance(v, ast.Call) and isinstance(v.func, ast.Name) \
+                                and v.func.id in mod.classes:
+                            t = self._method(fi.module, v.func.id, f.attr)
+                            if t:
+                                return t
             return [("unknown", name or norm_stmt(f))]
         # --- plain name ------------------------------------------------------
         if isinstance(f, ast.Name):
